@@ -15,8 +15,14 @@
 (*           tombstone rows swallowed), its sequence slicing and resumed   *)
 (*           runs; the any-input clause (monotone, in-range addresses) is  *)
 (*           evaluated on the observed rows themselves.                    *)
+(* Alongside, the DWARF 6.2 machine (W) tracks whether the unit is still   *)
+(* well formed.  An event the as-coded model does not explain is a         *)
+(* rejection (VIOLATION) only while the unit is well formed; in an         *)
+(* ill-formed unit the property fixes nothing but the any-input clause, so *)
+(* the unit is switched to mode "skip" (reported as DRIFT) and only that   *)
+(* clause is checked at its End.                                           *)
 EXTENDS LineSM, Json, IOUtils
-VARIABLES l, H, S, L
+VARIABLES l, H, S, L, W, mode
 Rec == ndJsonDeserialize(IOEnv.TRACE)
 
 IsEv(e) == l <= Len(Rec) /\ Rec[l].ev = e /\ l' = l + 1
@@ -52,24 +58,41 @@ HeaderOk(r, h) ==
        SubSeq(r.raw, il + 1, Len(r.raw)) = EncHeaderBody(h, T)
 Header == IsEv("Header") /\ LET r == Rec[l] IN \E h \in {HOf(r)} :
     /\ HeaderOk(r, h) = TRUE
-    /\ H' = h /\ S' = InitRun(h) /\ L' = <<>>
+    /\ H' = h /\ S' = InitRun(h) /\ L' = <<>> /\ W' = [r |-> InitRegs(h), wf |-> TRUE] /\ mode' = "check"
 
 Pub(r) == [addr |-> r.addr, opi |-> r.opi, file |-> r.file, line |-> r.line, col |-> r.col, stmt |-> r.stmt,
            bb |-> r.bb, es |-> r.es, pe |-> r.pe, eb |-> r.eb, isa |-> r.isa, disc |-> r.disc]
 
-Ins == IsEv("Ins") /\ S.end = "run" /\ LET r == Rec[l] IN
-    /\ Dec(H, r.bytes, 1) = DecOk(r.ins, Len(r.bytes))
-    /\ \E e \in {Exec(H, S.r, r.ins)} : e.ok /\ e.emit = r.emit /\ Pub(e.r) = r.regs
-    /\ S' = Apply(H, S, r.ins, Len(r.bytes))
-    /\ L' = Append(L, [ins |-> r.ins, n |-> Len(r.bytes)])
-    /\ H' = H
-InsErr == IsEv("InsErr") /\ S.end = "run" /\ LET r == Rec[l] IN
-    /\ ~Dec(H, r.bytes, 1).ok
-    /\ S' = [S EXCEPT !.end = "err"] /\ UNCHANGED <<H, L>>
-ExecErr == IsEv("ExecErr") /\ S.end = "run" /\ LET r == Rec[l] IN
-    /\ Dec(H, r.bytes, 1) = DecOk(r.ins, Len(r.bytes))
-    /\ ~Exec(H, S.r, r.ins).ok
-    /\ S' = [S EXCEPT !.end = "err"] /\ UNCHANGED <<H, L>>
+StdNext(w, ins) == IF ~w.wf THEN w
+                   ELSE LET e == StdExec(H, w.r, ins) IN
+                        [r |-> IF e.emit THEN StdAfterRow(H, e.r) ELSE e.r, wf |-> e.wf]
+InsOk(r) == /\ Dec(H, r.bytes, 1) = DecOk(r.ins, Len(r.bytes))
+            /\ \E e \in {Exec(H, S.r, r.ins)} : e.ok /\ e.emit = r.emit /\ Pub(e.r) = r.regs
+Skip == mode' = "skip" /\ PrintT(<<"DRIFT", l>>) /\ UNCHANGED <<H, S, L>>
+
+Ins == IsEv("Ins") /\ mode = "check" /\ S.end = "run" /\ LET r == Rec[l] IN
+    \E ok \in {InsOk(r) = TRUE} : \E w2 \in {StdNext(W, r.ins)} :
+    /\ W' = w2
+    /\ IF ok THEN /\ S' = Apply(H, S, r.ins, Len(r.bytes))
+                  /\ L' = Append(L, [ins |-> r.ins, n |-> Len(r.bytes)])
+                  /\ UNCHANGED <<H, mode>>
+       ELSE ~w2.wf /\ Skip
+InsErr == IsEv("InsErr") /\ mode = "check" /\ S.end = "run" /\ LET r == Rec[l] IN
+    /\ W' = [W EXCEPT !.wf = FALSE]
+    /\ IF ~Dec(H, r.bytes, 1).ok THEN S' = [S EXCEPT !.end = "err"] /\ UNCHANGED <<H, L, mode>>
+       ELSE Skip            \* an undecodable tail is ill formed whatever the model says
+ExecErr == IsEv("ExecErr") /\ mode = "check" /\ S.end = "run" /\ LET r == Rec[l] IN
+    \E ok \in {(Dec(H, r.bytes, 1) = DecOk(r.ins, Len(r.bytes)) /\ ~Exec(H, S.r, r.ins).ok) = TRUE} :
+    \E w2 \in {StdNext(W, r.ins)} :
+    /\ W' = w2
+    /\ IF ok THEN S' = [S EXCEPT !.end = "err"] /\ UNCHANGED <<H, L, mode>>
+       ELSE ~w2.wf /\ Skip
+(* skip mode: the remaining events of an ill-formed unit are not compared *)
+SkipEv == mode = "skip" /\ l <= Len(Rec) /\ Rec[l].ev \in {"Ins", "InsErr", "ExecErr"} /\ l' = l + 1
+          /\ UNCHANGED <<H, S, L, W, mode>>
+SkipEnd == mode = "skip" /\ IsEv("End") /\ LET r == Rec[l] IN
+    /\ (InRange(r.rows, H.asz) /\ Monotone(r.rows)) = TRUE
+    /\ UNCHANGED <<H, S, L, W, mode>>
 
 EndOk(r, F, RR) ==
     /\ r.end = F.end /\ r.rows = F.rows
@@ -86,16 +109,17 @@ EndOk(r, F, RR) ==
                  /\ InRange(r.seqs.list[k].rows, H.asz)
                  /\ (Monotone(r.seqs.list[k].rows) \/ F.merged)
        ELSE ~r.seqs.ok
-End == IsEv("End") /\ LET r == Rec[l] IN
+End == IsEv("End") /\ mode = "check" /\ LET r == Rec[l] IN
     \E F \in {IF S.end = "run" THEN [S EXCEPT !.end = "done"] ELSE S} :
     \E RR \in {ResumedRuns(H, [list |-> L, ok |-> TRUE], F)} :
-    /\ EndOk(r, F, RR) = TRUE
-    /\ S' = F /\ UNCHANGED <<H, L>>
+    /\ IF EndOk(r, F, RR) = TRUE THEN S' = F /\ UNCHANGED <<H, L, W, mode>>
+       ELSE /\ ~W.wf /\ (InRange(r.rows, H.asz) /\ Monotone(r.rows)) = TRUE
+            /\ Skip /\ UNCHANGED W
 
-BadHeader == IsEv("BadHeader") /\ UNCHANGED <<H, S, L>>
+BadHeader == IsEv("BadHeader") /\ UNCHANGED <<H, S, L, W, mode>>
 
-Init == l = 1 /\ H = <<>> /\ S = <<>> /\ L = <<>>
-Next == Header \/ Ins \/ InsErr \/ ExecErr \/ End \/ BadHeader
+Init == l = 1 /\ H = <<>> /\ S = <<>> /\ L = <<>> /\ W = <<>> /\ mode = "check"
+Next == Header \/ Ins \/ InsErr \/ ExecErr \/ End \/ BadHeader \/ SkipEv \/ SkipEnd
 Accepted == LET d == TLCGet("stats").diameter IN
             IF d - 1 = Len(Rec) THEN TRUE
             ELSE Print(<<"UNMATCHED", d, ToJson(Rec[d])>>, FALSE)
